@@ -216,4 +216,13 @@ def mirror_matrix(repo: Repo) -> RuleRun:
 
 mirror_matrix.rule_id = "C17.MIRROR-MATRIX"
 
-RULES = [purity, position_writers, link_algebra, affine_kinds, mirror_matrix]
+def trig_domain(repo: Repo) -> RuleRun:
+    """RotationLink measures the leader's turn with functions.angle_between: for an unmoved leader in a general position an unclipped (or one-sidedly clipped) cosine gives NaN and the follower is lost."""
+    from ..domain import inverse_trig_rule
+
+    return inverse_trig_rule(repo, PROP, "C17.TRIG-DOMAIN", ('util.functions', 'optimize.'), floor=2)
+
+
+trig_domain.rule_id = "C17.TRIG-DOMAIN"
+
+RULES = [purity, position_writers, link_algebra, affine_kinds, mirror_matrix, trig_domain]
